@@ -478,7 +478,7 @@ class C15(Prop):
     go_timeout = 900
     rule = ("c15.conn: generated multi-stream HTTP/2 exchanges (1-4 streams; gRPC / gRPC-web / Connect streaming / unary; HEADERS split "
             "into 0-2 CONTINUATIONs, padding, priority; DATA cut at arbitrary points; request trailers; RST_STREAM from either side; "
-            "refused-and-retried; unnamed streams; GOAWAY; PING/SETTINGS/WINDOW_UPDATE/PRIORITY/PUSH_PROMISE/unknown-type noise; one "
+            "refused-and-retried; unnamed streams; GOAWAY (also at every position of three open streams); every production of the grammar of well-formed streams (RST by either peer after every prefix, trailers-only, zero DATA, CONTINUATION chains, late frames); Reads delivering bytes together with a timeout / EOF / error at every position; PING/SETTINGS/WINDOW_UPDATE/PRIORITY/PUSH_PROMISE/unknown-type noise; one "
             "structurally malformed frame or a bad preface) synthesised by x/net/http2's Framer + hpack.Encoder (dynamic table shared per "
             "direction), x random interleavings (all interleavings of two short streams in the exhaustive part) x chunkings (one op per "
             "frame, random cuts, byte-by-byte, maximal), played through the real TracingHTTP2Conn over a scripted net.Conn on client and "
@@ -497,25 +497,38 @@ class C15(Prop):
                    "the inner net.Conn returns 0 <= n <= len(buf)",
                    "x/net/http2's Framer accepts/rejects frames as parse_buf says (frame.go v0.37.0 transcribed; exercised on every run, "
                    "including one malformation per frame type)")
-    level_text = ("Machine-checked proof (Coq). L1: every Read/Write/Close returns exactly the inner conn's bytes, count and error from "
-                  "ANY tracer state, and (never_crashes) for any op list, any bytes and any HPACK behaviour the run exists: no nil "
-                  "dereference is reachable (stream-table invariant). L2: for ALL byte streams, ALL partitions into chunks and ANY decoder, "
-                  "feeding the chunks one by one leaves the frame tracer in the same state and emits the same frames as one call on the "
-                  "concatenation (trace-append lemma; preface, 9-byte header, payload, header blocks continued in CONTINUATION frames); "
-                  "broken is absorbing. L3: for ALL lists of decoded frames (any number of streams, any interleaving, well-formed or not) "
-                  "the traces a stream completes and the state it ends in are those of the run that sees only the frames concerning it "
-                  "(its own and GOAWAYs) - the trace is a function of the projection; two interleavings with the same projection give the "
-                  "same traces; the retry collector delivers only the retry's trace after a retryable refusal, and exactly once the parked "
-                  "one when no retry comes (timer or connection end). The model is tied to http2.go on every run by the differential check.")
-    level_note = ("PARTIAL: that a well-formed single stream's projection yields exactly ONE trace with exactly its request line, headers, "
-                  "messages, status, trailers and end/reset is NOT a Coq theorem (stream_independent reduces every interleaving to the "
-                  "single-stream run; the content of that run is validated by the differential check against the real code only, and by "
-                  "the Examples); likewise `no trace without test name` and `streams at or below GOAWAY's last-stream-id are untouched` are "
-                  "exercised, not proved. Trusted: Coq kernel, extraction, OCaml driver, harness, generator. HPACK decoding is an oracle "
-                  "(function of the direction's header-block history); Framer.ReadFrame's structural checks are transcribed from x/net "
-                  "v0.37.0 and compared on every run; compression of end-stream messages is outside the modelled fragment (identity only); "
-                  "strconv.Atoi signs in :status not modelled; time.AfterFunc is the explicit TimesUp action; lock-region atomicity assumed.")
-    technique = "Coq: chunking independence by a trace-append lemma, stream independence by simulation over arbitrary frame lists; differential run"
+    level_text = ("Machine-checked proof (Coq, 23 theorems). L1: every Read/Write/Close returns exactly the inner conn's bytes, count and "
+                  "error from ANY tracer state; for any op list, bytes and HPACK behaviour the run exists (never_crashes: no nil "
+                  "dereference reachable, stream-table invariant); every chunk the inner Reads deliver - with or without an error - and "
+                  "everything handed to Write goes through the frame tracers, a Read with bytes and an error traces first and handles the "
+                  "error afterwards (all_bytes_traced, read_error_after_tracing). L2: for ALL byte streams, ALL partitions into chunks and "
+                  "ANY decoder, chunk by chunk = one call on the concatenation (state and frames; preface, 9-byte header, payload, header "
+                  "blocks continued in CONTINUATION frames); broken is absorbing. L3: (a) for ALL lists of decoded frames the traces a "
+                  "stream completes and its final state are those of the run over its own frames and GOAWAYs (stream_independent); (b) "
+                  "C15_SpecL3.exchange is a grammar of well-formed streams over decoded frames (request HEADERS, DATA*, END_STREAM on "
+                  "DATA/trailers/HEADERS; response HEADERS, DATA*, END_STREAM on DATA/trailers/HEADERS; both directions interleaved; "
+                  "RST_STREAM by either peer anywhere; late frames) generating the expected trace with the frames; for EVERY exchange the "
+                  "model completes exactly that one trace iff the request carries a test name (single_stream_trace_content), hence for ANY "
+                  "interleaving of ANY number of well-formed streams the multiset of completed traces is the multiset of the expected ones "
+                  "(wellformed_interleaving_traces); (c) a stream id without test name never completes a trace, for all frame lists "
+                  "(no_name_no_trace); (d) GOAWAY(last) leaves every stream <= last exactly as without it and abandons every stream above "
+                  "it exactly as setMaxStreamIDLocked does, for good (goaway_keeps_lower, goaway_cancels_higher[_any]); (e) the retry "
+                  "collector delivers only the retry's trace after a retryable refusal, and the parked one exactly once when no retry "
+                  "comes. The model is tied to http2.go on every run by the differential check, whose generator goes through every "
+                  "production of the grammar (counted in evidence: grammar_shapes).")
+    level_note = ("Gaps: the grammar leaves out 1xx response HEADERS, request HEADERS arriving after the stream is over, and streams ended "
+                  "by cancelAll (connection close; modelled and exercised, not in a content theorem); wellformed_interleaving_traces "
+                  "excludes GOAWAY inside the interleaving (GOAWAY is covered by goaway_keeps_lower / goaway_cancels_higher plus "
+                  "stream_independent, whose projection keeps GOAWAYs); goaway_keeps_lower assumes no earlier GOAWAY already cut the stream "
+                  "off (the code overwrites maxStreamID); last-stream-id 0 is stored as `no limit` by the code (quirk, recorded). Expected "
+                  "messages are defined by threading the envelope parser over the DATA payloads; equality with one parse of the whole body "
+                  "is C14's theorem, not re-proved for this model's dt_*. From completions to collector deliveries only the refusal/retry "
+                  "patterns are proved. L2 has no declarative split_frames spec (theorem = chunking independence of the machine). "
+                  "Trusted: Coq kernel, extraction, OCaml driver, harness, generator. HPACK decoding is an oracle (function of the "
+                  "direction's header-block history); Framer.ReadFrame's structural checks are transcribed from x/net v0.37.0 and compared "
+                  "on every run; compression of end-stream messages is outside the modelled fragment (identity only); strconv.Atoi signs "
+                  "in :status not modelled; time.AfterFunc is the explicit TimesUp action; lock-region atomicity assumed.")
+    technique = "Coq: chunking independence by a trace-append lemma, stream independence by simulation over arbitrary frame lists, trace content by a grammar of well-formed streams + simulation; differential run"
 
     def nontrivial(self, case, res):
         if case[0] == "c15.fuzz":
